@@ -18,13 +18,21 @@ import (
 
 var IngestPort, QueryPort int
 
+// freePort picks a currently unused port outside the kernel's ephemeral range (32768–60999), so that outgoing
+// connections of other workers cannot grab it between the probe and the server's listen.
 func freePort() int {
-	l, err := net.Listen("tcp", "127.0.0.1:0")
-	if err != nil {
-		return 0
+	seed := uint32(os.Getpid())*2654435761 + uint32(time.Now().UnixNano())
+	for i := 0; i < 200; i++ {
+		seed = seed*1664525 + 1013904223
+		p := 10000 + int(seed>>8)%20000
+		l, err := net.Listen("tcp", fmt.Sprintf("127.0.0.1:%d", p))
+		if err != nil {
+			continue
+		}
+		l.Close()
+		return p
 	}
-	defer l.Close()
-	return l.Addr().(*net.TCPAddr).Port
+	return 0
 }
 
 func repoDir() string {
